@@ -112,6 +112,7 @@ type FuncVC struct {
 	axioms      []string
 	lemmaName   string
 	tablesUsed  map[string]bool
+	regTabsUsed map[string]bool
 	inFinish    bool
 	noStepFrame bool
 	curPos      token.Pos
